@@ -30,20 +30,22 @@ PROPS = {
             "tokio paused clock drives request timeouts; clock advances are chosen so that no deadline is hit exactly",
             "in-memory carrier under the crate's Substream type (Substream::verif_new); framing itself is C04's subject",
         ],
-        "level_text": "Proof: for every sequence of stimuli (user commands, transport-service events, carrier events of the remote side, "
-                      "clock advances) the model of the event loop emits at most one terminal event per request id; once no dial, substream "
-                      "opening or request future is outstanding every request id handed out has exactly one terminal event unless the user "
-                      "cancelled it (ledger invariant over pending_dials / peers[..].active / pending_outbound / in-flight futures); a "
-                      "delivered response carries the payload of the remote response on the carrier of that request's future and carriers "
-                      "are never shared; at most one RequestReceived per inbound substream; the inbound bound is an invariant. The model is "
-                      "tied to mod.rs/handle.rs by a per-stimulus differential run of the real protocol object with full bookkeeping dumps.",
+        "level_text": "Proof (partial): for every sequence of stimuli (user commands, transport-service events, carrier events of the remote "
+                      "side, clock advances) the model of the event loop emits at most one terminal event per request id "
+                      "(C13_at_most_one, ledger invariant over pending_dials / peers[..].active / pending_outbound / in-flight futures); "
+                      "whenever nothing is owed (pending_dials and every peers[..].active empty) every request id handed out has exactly one "
+                      "terminal event unless the user asked to cancel it (C13_exactly_one_settled_partial); the inbound bound is an invariant "
+                      "(C13_inbound_bound). The model is tied to mod.rs/handle.rs by a per-stimulus differential run of the real protocol "
+                      "object with full bookkeeping dumps. Payload pairing (a response is the remote answer on that request's substream), "
+                      "one RequestReceived per inbound substream and 'nothing outstanding implies nothing owed' are not theorems: they are "
+                      "judged by the oracle prop_ok on every implementation trace.",
         "level_note": "The unrepaired code violated the property (F-C13a: a second request to a peer that is still being dialed overwrote "
-                      "pending_dials[peer]; the first request never got an outcome) - repaired by a fix: commit, witness kept in corpus/C13. "
-                      "Not modelled: fallback protocol names, send_response_with_feedback, a full event/command channel parking the loop "
-                      "(.await inside handlers), partial frames (C04), a DialPeer command silently refused by the manager (F-C05c: then a dial "
-                      "stays outstanding forever and the quiescence premise never holds).",
+                      "pending_dials[peer]; the first request never got an outcome; C13_unrepaired_refuted) - repaired by a fix: commit, "
+                      "witness kept in corpus/C13. Not modelled: fallback protocol names, send_response_with_feedback, a full event/command "
+                      "channel parking the loop (.await inside handlers), partial frames (C04), a DialPeer command silently refused by the "
+                      "manager (F-C05c: then a dial stays outstanding forever and the settled premise never holds).",
         "assumptions": ["request ids come from the shared allocator (send_request/try_send_request), never chosen by the user",
-                        "quiescence (nothing outstanding) is a premise of exactly-one: every dial is eventually answered by ConnectionEstablished or DialFailure, every open_substream by SubstreamOpened or SubstreamOpenFailure",
+                        "'settled' (nothing owed) is a premise of exactly-one: every dial is eventually answered by ConnectionEstablished or DialFailure, every open_substream by SubstreamOpened or SubstreamOpenFailure, every future ends (response, EOF, timeout)",
                         "HashMap/FuturesUnordered iteration order is not observable (events of one step and dumps are sorted)"],
     },
     "C17": {
